@@ -906,7 +906,8 @@ class World:
                 self.note("squeue_fail", mode="once", by=vt.proc.name)
                 self.fault_hits.append(("squeue_fail_once", self.squeue_calls))
                 return SyncResult(1, "", "slurm_load_jobs error: Socket timed out on send/recv operation\n")
-            if k == "squeue_fail_series" and f["nth"] <= self.squeue_calls < f["nth"] + 7:
+            # a whole retry window of JADE is 7 calls (1 + 6 retries); "len" = how many consecutive calls fail
+            if k == "squeue_fail_series" and f["nth"] <= self.squeue_calls < f["nth"] + f.get("len", 7):
                 self.note("squeue_fail", mode="series", by=vt.proc.name)
                 self.fault_hits.append(("squeue_fail_series", self.squeue_calls))
                 return SyncResult(1, "", "slurm_load_jobs error: Unable to contact slurm controller\n")
